@@ -63,4 +63,10 @@ META = {
             "note": "Exact derivatives come from extended-precision finite differences of an oracle re-implementation of each function; statement tolerances "
                     "(1e-4, 5e-2, 1e-15) verbatim, with derivatives smaller than 1 judged absolutely (the statement speaks of O(1) derivatives).",
             "technique": "runtime monitoring: reference-model oracle (extended-precision differentiation) + argument snapshots + call counters, ASan/UBSan"},
+    "C07": {"text": "Exploration: the manifold axioms (rminus(rplus(m,a),m)=a, rplus(m,rminus(m2,m))=m2, rminus(m,m)=0, dof = tangent length, "
+                    "independent copies and same-scalar casts) on 21 Manifold models; element-wise action of std::vector<M> and std::variant on "
+                    "consecutive tangent segments (bit-equal to the element calls); SubManifold over 5 base types with every fixed-dimension subset for "
+                    "dof <= 6 (value/origin/fixed dims kept, free-only motion, gather/scatter against the harness' own bookkeeping); AnyManifold deep copies.",
+            "note": "Element-wise references are the library's own per-element calls (judged by C01-C02); segment bookkeeping is the harness'. Sampled executions only.",
+            "technique": "runtime monitoring: axiom monitors + differential container-vs-element checks with bitwise snapshots, ASan/UBSan"},
 }
